@@ -19,6 +19,9 @@ RULE = (
     "re-executed per choice prefix). 'bursts': Hypothesis draws message contents (full grammar), burst sizes up to 6, connection "
     "mixes and random release orders. Oracle: each connection's output equals the concatenation of the serialized routed messages in "
     "routing order (whole, not interleaved, ordered); with a stalled connection all other connections still complete and "
+    "process_message returns; 'interleave' additionally makes routing itself and single loop iterations scheduler choices (route "
+    "next message / run exactly one loop iteration / complete one awaitable without running the loop), enumerated up to a depth "
+    "bound, so that races between a completion's wake-up and the next routed message are reached; "
     "process_message returns. Each explored schedule is one evaluation; non-trivial: some connection had >= 2 unfinished sends at a "
     "choice point. Schedules of one configuration are distinct by construction."
 )
@@ -201,7 +204,100 @@ def check_schedule(case):
     return Info(nontrivial=nt, labels=["+".join(case["conns"])] + (["stalled"] if case.get("stalled") is not None else []))
 
 
-SUBCHECKS = {"explore": check_config, "schedule": check_schedule, "bursts": check_schedule}
+def run_interleaved(conns, n, choose, max_steps=40):
+    """Fine-grained schedule: at every choice point the scheduler may route the next message (inside one loop
+    iteration), run exactly one loop iteration, or complete one pending awaitable WITHOUT running the loop."""
+    rig = Rig(conns, None)
+    try:
+        msgs = fixed_messages(n)
+        routed = 0
+        steps = 0
+        trace = []
+        while True:
+            pend = rig.pending()
+            options = []
+            if routed < n:
+                options.append(("R", None))
+            if rig.loop.busy:
+                options.append(("Y", None))
+            for p in pend:
+                options.append(("C", p))
+            if not options:
+                break
+            steps += 1
+            if steps > max_steps:
+                # bound reached: finish deterministically (route the rest, then drain / release in order)
+                act = options[0]
+            else:
+                act = options[choose(len(options))]
+            trace.append(act[0])
+            if act[0] == "R":
+                m = msgs[routed]
+                routed += 1
+
+                def route(m=m):
+                    rig.router.process_message(m, sender=None)
+                    for c in rig.conns:
+                        if c["kind"] == "cli":
+                            c["handler"].send_message(m)
+
+                rig.loop.call_soon(route)
+                rig.loop.step()
+            elif act[0] == "Y":
+                rig.loop.step()
+            else:
+                ci, k = act[1]
+                c = rig.conns[ci]
+                if c["kind"] in ("tcp", "cli"):
+                    fut = c["writer"].pending.pop(k)
+                    if not fut.done():
+                        fut.set_result(None)
+                else:
+                    kind, data, fut = c["stdout"].pending.pop(k)
+                    if kind == "write":
+                        c["stdout"].out += data
+                    if not fut.done():
+                        fut.set_result(None)
+            if steps > 2000:
+                raise Failure("schedule-does-not-end", "".join(trace[:60]))
+        want = b"".join(m.to_string() for m in msgs)
+        for ci, c in enumerate(rig.conns):
+            out = rig.output(c)
+            if out != want:
+                got_tags = [e.tag + ":" + (e.get("name") or e.get("message") or "") for e in _split(out)]
+                want_tags = [e.tag + ":" + (e.get("name") or e.get("message") or "") for e in _split(want)]
+                kind = "reordered" if sorted(got_tags) == sorted(want_tags) else ("incomplete" if len(out) < len(want) else "corrupt")
+                raise Failure(f"interleaved-output-{kind}:{c['kind']}", f"{conns} n={n} schedule {''.join(trace)}: wrote {got_tags}, routed {want_tags}")
+        if rig.loop._unhandled:
+            raise Failure("send-task-exception", f"{[str(c.get('exception') or c.get('message')) for c in rig.loop._unhandled][:3]}")
+        return "".join(trace)
+    finally:
+        rig.close()
+
+
+def check_interleave(case):
+    """case: {"conns": [...], "n": int, "max_steps": int, "choices": [...]?} - all fine-grained schedules (or one, if choices given)"""
+    conns, n = case["conns"], case["n"]
+    if case.get("choices") is not None:
+        ch = gen.Chooser(case["choices"])
+        run_interleaved(conns, n, lambda k: ch.next(k), case.get("max_steps", 14))
+        return Info(nontrivial=n >= 2, labels=["+".join(conns)])
+    counters = {"n": 0}
+
+    def scenario(choose, trace):
+        try:
+            run_interleaved(conns, n, choose, case.get("max_steps", 14))
+        except Failure as f:
+            f.min_case = {"conns": conns, "n": n, "max_steps": case.get("max_steps", 14), "choices": [c for c, _ in trace]}
+            raise
+        counters["n"] += 1
+
+    ex = net.Explorer(scenario, max_runs=case.get("max_runs", 60000))
+    ex.explore()
+    return Info(n_eval=counters["n"], n_nontrivial=counters["n"] if n >= 2 else 0, label_counts={"interleave-" + "+".join(conns): counters["n"], "interleave-truncated": int(ex.truncated)})
+
+
+SUBCHECKS = {"explore": check_config, "schedule": check_schedule, "bursts": check_schedule, "interleave": check_interleave}
 
 
 def configs(tier):
@@ -238,4 +334,11 @@ burst_case = st.fixed_dictionaries(
 def run(ctx):
     cnt = ctx.each("explore", configs(ctx.tier), check_config, stop_after=4, timeout=1800)
     ctx.exhaustive["explore"] = {"complete": True, "n_configs": cnt, "bound": "every release order of pending awaitables for each (connections, burst size, routing pattern, stalled connection) configuration"}
+    inter = [{"conns": c, "n": n, "max_steps": ms} for c, n, ms in (
+        (["tcp"], 2, 12), (["tcp"], 3, 11), (["tty"], 2, 12), (["tty"], 3, 10), (["cli"], 3, 11), (["tcp", "tcp"], 2, 9),
+    )]
+    if ctx.tier == "thorough":
+        inter += [{"conns": c, "n": n, "max_steps": ms, "max_runs": 400000} for c, n, ms in ((["tcp"], 4, 13), (["cli"], 4, 13), (["tty"], 3, 13), (["tcp", "tty"], 2, 11))]
+    cnt2 = ctx.each("interleave", inter, check_interleave, stop_after=3, timeout=3000)
+    ctx.exhaustive["interleave"] = {"complete": True, "n_configs": cnt2, "bound": "every sequence of {route next message, run one loop iteration, complete one pending awaitable} up to max_steps choice points per configuration (then finished deterministically); a configuration whose schedule count exceeds max_runs is marked truncated in coverage.classes"}
     ctx.hyp("bursts", burst_case, check_schedule, ctx.scale(200, 5000))
